@@ -372,21 +372,33 @@ where
         confirmed: bool,
     ) -> Result<SendResponse, Error<R::PhyError>> {
         // Prepare transmission buffer
-        let (tx_config, rx_windows, _fcnt_up) = self.mac.send::<G, N>(
+        let (tx_config, rx_windows, fcnt_up) = self.mac.send::<G, N>(
             &mut self.rng,
             &mut self.radio_buffer,
             &SendData { data, fport, confirmed },
         )?;
         // Transmit our data packet
-        let ms = self
-            .radio
-            .tx(tx_config, self.radio_buffer.as_ref_for_read())
-            .await
-            .map_err(Error::Radio)?;
-
-        // Wait for received data within window
-        self.timer.reset();
-        Ok(self.rx_downlink(&Frame::Data, ms, &rx_windows).await?.into())
+        let result = match self.radio.tx(tx_config, self.radio_buffer.as_ref_for_read()).await {
+            Ok(ms) => {
+                // Wait for received data within window
+                self.timer.reset();
+                self.rx_downlink(&Frame::Data, ms, &rx_windows).await
+            }
+            Err(e) => Err(Error::Radio(e)),
+        };
+        match result {
+            Ok(response) => Ok(response.into()),
+            Err(e) => {
+                // The frame may have gone out before the radio failed, so its counter must never
+                // be used for a different frame: close the uplink as if both windows had elapsed.
+                if self.mac.get_fcnt_up() == Some(fcnt_up)
+                    && let mac::Response::SessionExpired = self.mac.rx2_complete()
+                {
+                    return Ok(SendResponse::SessionExpired);
+                }
+                Err(e)
+            }
+        }
     }
 
     /// Take the downlink data from the device. This is typically called after a
